@@ -25,6 +25,7 @@ class SharedWrite:
     kinds: Set[str] = field(default_factory=set)
     chain: Tuple[Tuple[str, int], ...] = ()
     depth: int = 0
+    owner_line: int = 0
 
     @property
     def name(self) -> str:
@@ -81,7 +82,84 @@ class World:
                 sw.kinds.add(g.kind)
                 if g.origin_line < sw.origin_line:
                     sw.origin_line, sw.origin_text = g.origin_line, g.origin_text
+                if g.chain:
+                    sw.owner_line = g.chain[0][1] if sw.owner_line == 0 else min(sw.owner_line, g.chain[0][1])
+                elif sw.owner_line == 0:
+                    sw.owner_line = g.origin_line
         return list(groups.values())
+
+
+DEFINITE_KINDS = ("subscript-store:const", "attr-aug:", "method:sort", "method:reverse", "method:clear", "method:pop", "method:remove",
+                  "method:insert", "method:extend", "method:popitem", "method:discard", "del", "global-rebind:", "subscript-aug", "aug-assign")
+
+
+def store_is_rmw(model: Model, func: str, line: int) -> bool:
+    """Is the keyed store at `line` of `func` a read-modify-write of the container (value computed from what the
+    container held, e.g. `for i, v in enumerate(self.xs): self.xs[i] = f(v)`)?"""
+    fi = model.funcs.get(func)
+    if fi is None:
+        return False
+    fn = fi.node
+    for st in ast.walk(fn):
+        if isinstance(st, ast.Assign) and st.lineno == line:
+            for t in st.targets:
+                if isinstance(t, ast.Subscript):
+                    base = core.src(t.value)
+                    seeds = _names(st.value)
+                    deps = derive_vars(fn, seeds)
+                    if base in core.src(st.value):
+                        return True
+                    # names bound by iterating / indexing the same container
+                    for n in ast.walk(fn):
+                        if isinstance(n, ast.For) and base in core.src(n.iter) and (_names(n.target) & deps):
+                            # the loop index alone does not carry content
+                            carried = set()
+                            if isinstance(n.iter, ast.Call) and core.src(n.iter.func) == "enumerate" and isinstance(n.target, ast.Tuple) and len(n.target.elts) == 2:
+                                carried = _names(n.target.elts[1])
+                            else:
+                                carried = _names(n.target)
+                            if carried & deps:
+                                return True
+                        if isinstance(n, ast.Assign) and isinstance(n.value, ast.Subscript) and core.src(n.value.value) == base and (_names(n.targets[0]) & deps):
+                            return True
+    return False
+
+
+def is_lazy_memo_attribute(model: Model, attr: str) -> bool:
+    """`.attr` is a lazily computed memo of its own object: every store to it is `self.attr = <value derived from self only>`
+    inside a method, so racing or repeated fills store the same value (provided the object is not otherwise mutated)."""
+    stores = 0
+    for fq, fi in model.funcs.items():
+        if fi.is_module_body:
+            continue
+        for n in ast.walk(fi.node):
+            if isinstance(n, (ast.Assign, ast.AugAssign)):
+                tgs = n.targets if isinstance(n, ast.Assign) else [n.target]
+                for t in tgs:
+                    if isinstance(t, ast.Attribute) and t.attr == attr:
+                        if isinstance(n, ast.AugAssign) or not fi.cls or not (isinstance(t.value, ast.Name) and t.value.id == "self"):
+                            return False
+                        stores += 1
+                        deps = derive_vars(fi.node, _names(n.value))
+                        params = set(fi.params) - {"self"}
+                        if deps & params:
+                            return False
+    return stores > 0
+
+
+def write_is_definite(model: Model, sw: "SharedWrite") -> bool:
+    """True when the write is data modification (scratch store, in-place transformation, counter-like update) rather than
+    a possibly idempotent keyed fill"""
+    for k in sw.kinds:
+        base = k.split(" (")[0]
+        escaped = "(object stored in shared state)" in k
+        if any(base.startswith(d) for d in DEFINITE_KINDS):
+            return True
+        if base.startswith("attr-store:") and not escaped and not is_lazy_memo_attribute(model, base.split(":", 1)[1]):
+            return True
+        if base == "subscript-store:key" and store_is_rmw(model, sw.origin_func, sw.origin_line):
+            return True
+    return False
 
 
 # ---------------------------------------------------------------------------------
